@@ -255,6 +255,14 @@ class _Subst(ast.NodeTransformer):
     def visit_Name(self, node):
         if isinstance(node.ctx, ast.Load) and node.id in self.mapping:
             new = copy.deepcopy(self.mapping[node.id])
+            if isinstance(new, ast.Name) and new.id in getattr(
+                    self, 'class_names', ()) and new.id not in \
+                    self.class_funcs:
+                # a cell naming another class-level constant (the table
+                # lives in the class body): reachable as self.<name>
+                new = ast.Attribute(value=ast.Name(id='self',
+                                                   ctx=ast.Load()),
+                                    attr=new.id, ctx=ast.Load())
             return ast.copy_location(new, node)
         return node
 
@@ -769,6 +777,8 @@ class _Unroller:
         out = []
         for cells in rows:
             sub = _Subst(dict(zip(names, cells)), funcs)
+            sub.class_names = set(cls_scope.counts) if cls_scope is not \
+                None else set()
             for st in loop.body:
                 new = sub.visit(copy.deepcopy(st))
                 _fold_getattr(new)
